@@ -77,6 +77,8 @@ var Table = []Entry{
 	e[types.LookupMetaMapEntry]("LookupMetaMapEntry"), e[types.Storage]("Storage"),
 	e[types.ServiceAccount]("ServiceAccount"), e[types.ServiceAccountState]("ServiceAccountState"),
 	big[types.State]("State"),
+	// the same type with a non-empty Theta (LastAccOut), which State.Encode does not write
+	big[types.State]("StateTheta"),
 	e[types.DeferredTransfer]("DeferredTransfer"), e[types.Operand]("Operand"),
 	e[types.OperandOrDeferredTransfer]("OperandOrDeferredTransfer"),
 	e[types.StateKey]("StateKey"), e[types.StateKeyVal]("StateKeyVal"), e[types.StateKeyVals]("StateKeyVals"),
